@@ -17,7 +17,13 @@ func (c *c02Checker) Totality(w *World, ev *Event, getterPanic string) []Failure
 	if ev.Panic != "" {
 		fs = append(fs, fail("C02.panic", append(ctx, "frame", ev.Panic, "msg", ev.PanicMsg)...))
 	}
-	if ev.Hang {
+	if ev.Hang && ev.Blocked {
+		where := "the operation itself"
+		if ev.BlockedIn != "" {
+			where = ev.BlockedIn
+		}
+		fs = append(fs, fail("C02.hang", append(ctx, "why", "blocked: the call did not return, executed no statement and used no CPU for "+blockPatience.String()+" - in a single-threaded history nobody exists who could release it (a lock taken twice, or held across a callback that re-enters)", "blocked-in", where)...))
+	} else if ev.Hang {
 		fs = append(fs, fail("C02.hang", append(ctx, "steps", fmt.Sprint(ev.Steps), "why", "statement budget 10^6+1000L+5L^2 exceeded")...))
 	}
 	if getterPanic != "" {
